@@ -199,7 +199,7 @@ def compare(obs_db, obs_rdb, m, flip):
 PK1 = list("abcdefgh")
 TG1 = list("pqrstu")
 PKM = ["ab", "libfoo", "x11-apps", "g++", "a.b", "zsh", "py3", "longname"]
-TGM = ["devel::lang", "devel::lib", "use::edit", "role::program", "ui::x11", "zz", "role::data"]
+TGM = ["devel::lang", "devel::lib", "use::edit", "role::program", "ui::x11", "zz", "role::data", "x::100%s"]
 
 
 def _gen_pred(rng, universe):
@@ -244,6 +244,7 @@ def generate(seed, run, tier):
     w_der = rs.choice([1, 2, 4])
     w_drop = rs.choice([0, 1])
     w_reread = rs.choice([0, 0, 1])
+    w_again = rs.choice([0, 1, 2])     # a derivation asked for once more, later in the history
     sim = _Sim(world)
     steps = []
     for _ in range(nsteps):
@@ -252,7 +253,18 @@ def generate(seed, run, tier):
             break
         h = rq.randrange(nh)
         kind = rq.choice(["insert"] * w_ins + ["derive"] * w_der + ["drop"] * w_drop +
-                         ["reread"] * w_reread)
+                         ["reread"] * w_reread + ["again"] * w_again)
+        if kind == "again":
+            earlier = [x for x in steps if x["op"] not in ("insert", "drop", "reread")
+                       and x["h"] < nh]
+            if not earlier or nh >= 6:
+                kind = "insert"
+            else:
+                st = dict(rq.choice(earlier[-3:]))
+                st["again"] = True
+                steps.append(st)
+                sim.apply(st)
+                continue
         if kind == "drop" and nh <= 1:
             kind = "insert"
         if kind == "derive" and nh >= 6:
